@@ -550,6 +550,47 @@ pub fn valid_boundaries(mon: &mut Monitor) {
     }
 }
 
+/// The inverse of an invertible affine matrix is affine to within the 1e-6 the transform_* entry points allow: all six
+/// entry points of Mat4 / DMat4 (and Mat3 / Mat3A / DMat3 for 2-D) accept glam's own inverse of a scale-rotation-translation.
+pub fn inverse_is_affine(mon: &mut Monitor) {
+    if let Some(mut c) = mon.begin("inverse of an affine matrix", "accepted by transform_point/vector{3,3a,2}") {
+        let mut rng = Rng::new(mon.op_seed("inverse", "affine"));
+        let iters = mon.n(60_000, 3_000_000);
+        let mut worst = 0.0f64;
+        for it in 0..iters {
+            let sc = |r: &mut Rng| (r.range(-3.0, 3.0).exp2() * if r.below(4) == 0 { -1.0 } else { 1.0 }) as f32;
+            let (s, ax, an, t) = (Vec3::new(sc(&mut rng), sc(&mut rng), sc(&mut rng)), Vec3::new(rng.normal() as f32, rng.normal() as f32, rng.normal() as f32 + 0.01).normalize(), rng.range(-3.2, 3.2) as f32, Vec3::new(rng.logmag(-4.0, 6.0) as f32, rng.logmag(-4.0, 6.0) as f32, rng.logmag(-4.0, 6.0) as f32));
+            let m = Mat4::from_scale_rotation_translation(s, Quat::from_axis_angle(ax, an), t);
+            let p = Vec3::new(rng.normal() as f32, rng.normal() as f32, rng.normal() as f32);
+            c.event(it % 64, true);
+            let r = catch_unwind(AssertUnwindSafe(|| {
+                let i = m.inverse();
+                let dev = (i.row(3) - Vec4::W).abs().max_element() as f64;
+                let _ = bb((i.transform_point3(p), i.transform_vector3(p), i.transform_point3a(p.into()), i.transform_vector3a(p.into())));
+                let di = m.as_dmat4().inverse();
+                let _ = bb((di.transform_point3(p.as_dvec3()), di.transform_vector3(p.as_dvec3())));
+                let m3 = Mat3::from_scale_angle_translation(Vec2::new(s.x, s.y), an, Vec2::new(t.x, t.y));
+                let (i3, i3a, di3) = (m3.inverse(), Mat3A::from(m3).inverse(), m3.as_dmat3().inverse());
+                let q = Vec2::new(p.x, p.y);
+                let _ = bb((i3.transform_point2(q), i3.transform_vector2(q), i3a.transform_point2(q), i3a.transform_vector2(q), di3.transform_point2(q.as_dvec2()), di3.transform_vector2(q.as_dvec2())));
+                dev
+            }));
+            match r {
+                Ok(dev) => { worst = worst.max(dev); c.ratio_t("last row deviation / 1e-6", dev / 1e-6); }
+                Err(_) => {
+                    if c.wants_witness("panic_in_valid_chain", &["inverse"]) {
+                        c.violation("panic_in_valid_chain", &["inverse"], format!("scale {:?} axis {:?} angle {} translation {:?} point {:?}", s, ax, an, t, p), last_panic(), "no panic".into(), "the inverse of an invertible scale-rotation-translation is an affine matrix".into());
+                    } else {
+                        c.st.violations += 1;
+                    }
+                }
+            }
+        }
+        c.sample(format!("inverses of {} scale-rotation-translation matrices (scales 2^-3..2^3 of either sign) fed to every transform_* entry point; largest last-row deviation {:.2e}", iters, worst));
+        mon.end(c);
+    }
+}
+
 /// Documented precondition violations: must panic with the assertions compiled in, must not without.
 pub fn documented_violations(mon: &mut Monitor, on: bool) {
     if let Some(mut c) = mon.begin("documented violations", if on { "catalogue: must panic (glam-assert)" } else { "catalogue: must not panic (plain build)" }) {
